@@ -29,6 +29,7 @@
 import AL.Impl.Cli
 import AL.Properties.C12
 import AL.Lemmas.CallSplit
+import AL.Lemmas.DebugText
 namespace AL.Properties.C20
 open AL AL.Impl AL.Gen AL.Lemmas AL.Lemmas.Split
 
@@ -468,5 +469,30 @@ theorem stdin_equals_file (flags : List Flag) (t : Str) (binOk : Bool) :
         simp at i1 i2
         simp [i1, i2, hw]
 
+
+/-! ### what `-p` prints reads back as the code (the printers of src/parser.c and tools/asmline.c, model AL.Impl.Debug) -/
+
+open AL.Lemmas.DebugText in
+/-- **the per-instruction listing reads back**: for EVERY option byte and text, reading every pair of hexadecimal digits of what a plain or
+    counting call prints gives the codes of the accepted lines in order, byte for byte (`% 256`: the printer takes a `uint8_t`) -/
+theorem listing_reads_back (opt : Nat) (text : Str) :
+    parseHexOut (debugListing opt text).1 =
+      ((listingGo (assembleLine opt) (text.length + 1) text).1.flatten).map (· % 256) := by
+  have h := parse_listing (listingGo (assembleLine opt) (text.length + 1) text).1 []
+  rw [List.append_nil] at h
+  unfold debugListing
+  dsimp only
+  rw [h]
+  have : parseHexOut [] = [] := by rw [parseHexOut]
+  rw [this, List.append_nil]
+
+open AL.Lemmas.DebugText in
+/-- **the chunked dump reads back**: for EVERY chunk size and buffer contents, what chunk fitting prints (`|` at every boundary) is the buffer -/
+theorem chunk_dump_reads_back (c : Nat) (bs : Bytes) : parseHexOut (printChunks c bs) = bs.map (· % 256) := by
+  have h := parse_printChunks c bs []
+  rw [List.append_nil] at h
+  rw [h]
+  have : parseHexOut [] = [] := by rw [parseHexOut]
+  rw [this, List.append_nil]
 
 end AL.Properties.C20
